@@ -256,6 +256,26 @@ step = self.step + 1
                     okw = dict((k, v) for k, v in x[3] if k).get("ordered") == ("param", "ordered")
     s.ob("C19.4", "lerax.utils.callback_wrapper", okw, "callback_wrapper forwards its `ordered` argument to jax.debug.callback", s.prog.loc(m5, f5),
          key="ordered-forwarded")
+    # ---------------------------------------------------------------- C19.7 the statistics run through warm-up
+    # An off-policy learner steps its environments during warm-up (collect_learning_starts); the per-environment logging state has to be
+    # the one those steps produced - rewinding it while the environments stay mid-episode logs the first episode after warm-up with only
+    # part of its return and length, and every cumulative step count short by the warm-up steps.
+    b7 = s.builder(inline=set())
+    loc7 = s.loc("AbstractOffPolicyAlgorithm", "reset")
+    n7 = 0
+    for pr in live(s.paths(b7, "AbstractOffPolicyAlgorithm", "reset")):
+        n7 += 1
+        st7 = fields(pr.ret) if isinstance(pr.ret, tuple) and pr.ret and pr.ret[0] in ("record", "call") else {}
+        ss7 = st7.get("step_state", st7.get("arg:step_state"))
+        if ss7 is None and isinstance(pr.ret, tuple) and pr.ret and pr.ret[0] == "call" and len(pr.ret[2]) >= 2:
+            ss7 = pr.ret[2][1]
+        direct = isinstance(ss7, tuple) and ss7 and ss7[0] == "call" and (ss7[1] == ("attr", self_, "collect_learning_starts") or (
+            isinstance(ss7[1], tuple) and ss7[1] and ss7[1][0] == "vmapfn" and isinstance(ss7[1][1], Closure) and ss7[1][1].name == "collect_learning_starts"))
+        s.ob("C19.7", "AbstractOffPolicyAlgorithm.reset", direct, "the step state training starts from is exactly what (vmapped) collect_learning_starts returned (callback state included)",
+             loc7, key="warmup-statistics-kept", detail=show(ss7 if ss7 is not None else NONE, maxlen=200),
+             necessary_for="statistics are updated with the rewards and steps since the previous episode end, warm-up steps included; records carry the cumulative number of environment steps")
+    if n7 == 0:
+        raise AnalysisError("AbstractOffPolicyAlgorithm.reset: no path")
     # ---------------------------------------------------------------- C19.6 callback lists are transparent
     check_callback_list(s, "C19.6")
     # ---------------------------------------------------------------- C19.5
@@ -310,6 +330,28 @@ nenv = lax.cond(done, lambda: s, lambda: s1)
                  necessary_for="each episode ends at its first terminal or truncated state")
             s.eq("C19.5", con6 + tag, nz6, b6.item(ncarry, 0), ref["nenv"], "the environment state advances only while the episode is running", loc6,
                  key="env-advance")
+            # independent episodes need independent noise: within a step the policy's draw and the environment's draws (observation,
+            # transition, reward, terminal) each consume their own split of the step key - a shared sub-key couples the action noise to
+            # the transition noise and biases the estimate for stochastic policies on stochastic environments
+            consumers = {}
+            for x in walk(bp.ret):
+                if isinstance(x, tuple) and x and x[0] == "call":
+                    nm = None
+                    if x[1] == polp:
+                        nm = "policy"
+                    elif isinstance(x[1], tuple) and x[1][0] == "attr" and x[1][1] == envp and x[1][2] in ("observation", "transition", "reward", "terminal"):
+                        nm = "env." + x[1][2]
+                    kk = dict((k_, v) for k_, v in x[3] if k_).get("key") if nm else None
+                    if nm and kk is not None:
+                        consumers.setdefault(nm, set()).add(kk)
+            flat_keys = [k_ for ks_ in consumers.values() for k_ in ks_]
+            want_n = 4 if det else 5
+            s.ob("C19.5", con6 + tag, len(flat_keys) == len(set(flat_keys)) == want_n and all(
+                isinstance(k_, tuple) and k_ and k_[0] == "item" and isinstance(k_[1], tuple) and k_[1] and k_[1][0] == "call" and k_[1][1] == ("global", "jax.random.split")
+                and k_[1][2] and k_[1][2][0] == ("param", "$k") for k_ in flat_keys),
+                "the policy and each environment function called in a step consume distinct elements of one split of the step key", loc6, key="step-keys-distinct",
+                detail="; ".join(f"{n_}: {', '.join(show(k_, maxlen=60) for k_ in ks_)}" for n_, ks_ in sorted(consumers.items())),
+                necessary_for="the mean undiscounted return of independent episodes (action noise independent of transition noise)")
             pcs = [x for x in walk(bp.ret) if isinstance(x, tuple) and x and x[0] == "call" and x[1] == polp]
             s.ob("C19.5", con6 + tag, len(pcs) == 1 and (("key" in dict((k, v) for k, v in pcs[0][3] if k)) != det),
                  "deterministic evaluation calls the policy without a key; stochastic evaluation with one", loc6, key="deterministic-key",
